@@ -99,6 +99,20 @@ def struct(x, depth=0):
         wires = tuple(x.wires)
     except Exception:  # noqa: BLE001
         wires = ("nowires",)
+    # attributes that some classes keep outside data / hyperparameters (Operator2 argument kinds, controlled operators)
+    for attr in ("control_values", "control_wires", "work_wires", "work_wire_type"):
+        try:
+            if hasattr(x, attr):
+                v = getattr(x, attr)
+                items.append(("@" + attr, _hval(list(v) if attr != "work_wire_type" else v, depth)))
+        except Exception:  # noqa: BLE001
+            pass
+    args = getattr(x, "arguments", None)
+    if isinstance(args, dict):
+        dyn = set(getattr(x, "dynamic_argnames", ()))
+        for k in sorted(args, key=str):
+            if k not in dyn and str(k) not in dict(items):
+                items.append(("arg:" + str(k), _hval(args[k], depth)))
     return (t, data, wires, tuple(items))
 
 
@@ -138,8 +152,26 @@ def _raise_site(e):
 
 
 # ------------------------------------------------------------------------------------------------------------ the check
+def _limit_repeats(ctx, per_mech=2):
+    """Record at most ``per_mech`` witnesses per (monitor, mechanism) and shard, so that frequent known mechanisms cannot
+    exhaust the bus' witness buffer and hide a new one (all occurrences are still counted)."""
+    orig, seen = ctx.violation, {}
+
+    def violation(monitor, message, case=None, mech=None, observed=None, expected=None):
+        k = (monitor, mech)
+        seen[k] = seen.get(k, 0) + 1
+        if seen[k] <= per_mech:
+            orig(monitor, message, case=case, mech=mech, observed=observed, expected=expected)
+        else:
+            ctx.nviolations += 1
+            ctx.count("witnesses_not_recorded_again")
+    ctx.violation = violation
+
+
 def run(ctx):
     import pennylane as qp
+
+    _limit_repeats(ctx)
 
     from pv.checks.c04 import _random_mp
     from pv.gen import opzoo
@@ -374,10 +406,13 @@ def _one(ctx, qp, a, cls, info, rng, ncap):
             data = list(a.data)
         except Exception:  # noqa: BLE001
             data = []
-        if data and all(np.asarray(d).dtype.kind in "fc" for d in data):
+        if data and any(np.asarray(d).dtype.kind in "fc" for d in data):
             new = []
             for d in data:
                 arr = np.asarray(d)
+                if arr.dtype.kind not in "fc":  # integer / boolean data (basis states, control values): re-bound unchanged
+                    new.append(d)
+                    continue
                 shift = rng.uniform(0.1, 0.9, size=arr.shape) if arr.ndim else float(rng.uniform(0.1, 0.9))
                 new.append(arr * 0.5 + shift if arr.ndim else float(np.real(arr)) * 0.5 + shift)
             sa_before = struct(a)
@@ -386,11 +421,16 @@ def _one(ctx, qp, a, cls, info, rng, ncap):
             try:
                 with qp.queuing.QueuingManager.stop_recording():
                     b = qp.ops.functions.bind_new_parameters(a, new)
-            except Exception as e:  # noqa: BLE001
+            except ValueError as e:
                 b = None
                 # parameters with constraints (unitarity, normalisation, probabilities): rebinding arbitrary values may be rejected
                 ctx.reject(f"bind:{type(e).__name__}")
                 ctx.note_add("bind_rejections", f"{cls}:{type(e).__name__}:{str(e)[:80]}", cap=40)
+            except Exception as e:  # noqa: BLE001 - same shapes as op.data were supplied: anything but a value rejection is a failure to rebind
+                b = None
+                ctx.ev("bind.params")
+                ctx.violation("bind.params", f"bind_new_parameters raised {type(e).__name__}: {str(e)[:200]} for a = {info['obj']} with new data of the same shapes",
+                              case=binfo, mech=_bind_mech("raises", cls, sa, e))
             if b is not None:
                 ctx.ev("bind.params")
                 ok = True
@@ -404,7 +444,7 @@ def _one(ctx, qp, a, cls, info, rng, ncap):
                         bd = None
                     if bd is None or len(bd) != len(new) or any(np.shape(x) != np.shape(y) or not np.array_equal(np.asarray(x), np.asarray(y)) for x, y in zip(bd, new)):
                         ctx.violation("bind.params", f"bind_new_parameters: data of the result is not exactly the new parameters; a = {info['obj']}; b = {_desc(b)}",
-                                      case=binfo, mech=f"bind:data-not-new:{cls}", observed=repr(bd)[:300], expected=repr(new)[:300])
+                                      case=binfo, mech=_bind_mech("data-not-new", cls, sa), observed=repr(bd)[:300], expected=repr(new)[:300])
                         ok = False
                 if ok:
                     s_b = struct(b)
@@ -424,6 +464,29 @@ def _one(ctx, qp, a, cls, info, rng, ncap):
         if int_wires and getattr(a, "batch_size", None) is None:
             ncap[0] += 1
             _capture(ctx, qp, a, cls, info, sa, Ma)
+
+
+def _type_names(st, acc=None):
+    """Class names of all (nested) operators in a structural fingerprint."""
+    acc = set() if acc is None else acc
+    if isinstance(st, tuple):
+        if len(st) == 4 and isinstance(st[0], str) and isinstance(st[1], tuple) and isinstance(st[3], tuple):
+            acc.add(st[0])
+        for e in st:
+            _type_names(e, acc)
+    return acc
+
+
+def _bind_mech(kind, cls, sa, exc=None):
+    """Mechanism tag of a rebinding failure; failures inherited from a nested operator are attributed to that operator."""
+    nested = _type_names(sa) - {cls}
+    if exc is not None:
+        if "ControlledQubitUnitary" in nested and isinstance(exc, TypeError) and "multiple values for argument 'wires'" in str(exc):
+            return "bind:raises:ControlledQubitUnitary:TypeError"
+        return f"bind:raises:{cls}:{type(exc).__name__}"
+    if kind == "data-not-new" and nested & {"MultiControlledX", "TemporaryAND"}:
+        return "bind:nested-misaligned:operand-with-data-but-num_params-0"
+    return f"bind:{kind}:{cls}"
 
 
 def _strip_data(items):
